@@ -7,6 +7,7 @@ from ..finite import UNKNOWN, feval
 from ..kinds import ALPHA
 from .repair import affine, aff_eq, aff_show, aff_sub
 from .graph import strip_int
+from .misc2 import _tri
 
 NONE = ('c', None)
 
@@ -168,10 +169,16 @@ def r_filter(ctx):
         for atom, p in ctx.conds(f, f.nodes[d.node]):
             if atom == ('v', 'only_last', 'P'):
                 pol = p
+        if pol is None and t is not None and t[0] == 'ifexp':
+            for atom, p in flatten_cond(t[1], True):
+                if atom == ('v', 'only_last', 'P'):
+                    arms[p], arms[not p] = t[2], t[3]
+            continue
         arms[pol] = t
     want_last = ('sub', seq, ('slice', ('un', '-', k), NONE, NONE))
     ok = arms.get(True) == want_last and arms.get(False) == seq
-    run.check(ok, 'R-FILTER', f, 'selection', f.nodes[sel_defs[0].node].lineno,
+    recognised = arms.get(True) is not None and arms.get(False) is not None
+    _tri(run, ok, recognised and not ok, 'R-FILTER', f, 'selection', f.nodes[sel_defs[0].node].lineno,
               'only_last selects s[-k:], otherwise the whole string',
               'the judged string is %s (only_last) / %s (whole); required s[-k:] / s'
               % (show(arms.get(True))[:60] if arms.get(True) else None, show(arms.get(False))[:60] if arms.get(False) else None),
@@ -227,10 +234,41 @@ def r_filter(ctx):
                     check_revcomp(ctx, f, needle, nd)
             elif atom[0] == 'cmp' and atom[1] in ('<', '>', '<=', '>='):
                 found['gc'].append((nd, atom, p))
-    run.check(found['char'] >= 1 and found['run'] >= 1 and found['motif'] >= 1 and found['rc'] >= 1, 'R-FILTER', f,
+    # a rule kind without a recognised rejecting test is a refutation only when its ingredients are absent from the class
+    # altogether (the rule was deleted); when they are present but arranged differently (helpers, any()/all()) the rule
+    # cannot decide
+    scope = f.module.tree
+    consts = {n_ for n_, v_ in f.module.globals.items() if isinstance(v_, ast.Constant) and v_.value == 'ACGT'}
+
+    def is_alpha_node(x):
+        return (isinstance(x, ast.Constant) and x.value == 'ACGT') or (isinstance(x, ast.Name) and x.id in consts)
+    char_ing = any(isinstance(c_, ast.Compare) and any(isinstance(o, (ast.In, ast.NotIn)) for o in c_.ops) and
+                   any(is_alpha_node(x) for x in c_.comparators) for c_ in ast.walk(scope))
+    rev_names = set()
+    for a_ in ast.walk(scope):
+        if isinstance(a_, ast.Assign) and len(a_.targets) == 1 and isinstance(a_.targets[0], ast.Name):
+            if any((isinstance(x, ast.Slice) and isinstance(x.step, ast.UnaryOp)) or
+                   (isinstance(x, ast.Call) and isinstance(x.func, ast.Name) and x.func.id == 'reversed') for x in ast.walk(a_.value)):
+                rev_names.add(a_.targets[0].id)
+    rc_ing = False
+    for c_ in ast.walk(scope):
+        if isinstance(c_, ast.Compare) and any(isinstance(o, (ast.In, ast.NotIn)) for o in c_.ops):
+            if any(isinstance(x, ast.Name) and x.id in rev_names for x in ast.walk(c_.left)) or \
+                    any((isinstance(x, ast.Slice) and isinstance(x.step, ast.UnaryOp)) for x in ast.walk(c_.left)):
+                rc_ing = True
+        if isinstance(c_, ast.Return) and c_.value is not None and any(
+                (isinstance(x, ast.Slice) and isinstance(x.step, ast.UnaryOp)) or (isinstance(x, ast.Name) and x.id in rev_names)
+                for x in ast.walk(c_.value)):
+            rc_ing = True       # a helper that returns the reverse complement
+    valid_src = ast.unparse(f.cls) if f.cls is not None else ast.unparse(f.node)
+    ingredients = {'char': char_ing, 'run': valid_src.count('max_homopolymer_runs') >= 4,
+                   'motif': valid_src.count('undesired_motifs') >= 4, 'rc': rc_ing}
+    missing = [k_ for k_ in ('char', 'run', 'motif', 'rc') if found[k_] < 1]
+    gone = [k_ for k_ in missing if not ingredients[k_]]
+    _tri(run, not missing, bool(gone), 'R-FILTER', f,
               'all-four-rule-kinds-present', f.node.lineno, 'character, run, motif and reverse-complement tests all reject',
-              'a rule kind of the documented predicate has no rejecting test: %s' % {k: v for k, v in found.items() if k != 'gc'},
-              inputs='strings violating the missing rule')
+              'a rule kind of the documented predicate has no rejecting test and its ingredients are gone from the module: %s'
+              % gone, inputs='strings violating the missing rule')
     check_gc(ctx, f, found['gc'], judged, k)
     check_windows(ctx, f, judged, k)
     # no rule may be skipped: the path conditions of a rejecting test are only configuration guards (cfg is not None),
@@ -301,6 +339,10 @@ def check_revcomp(ctx, f, t, nd):
         elif op[0] == 'rev':
             nrev += 1
     okmap = s == 'TGCA'
+    interpreted = any(op[0] == 'replace' for op in ops)
+    if not interpreted:
+        run.undecided('R-FILTER', f, 'complement-map', nd.lineno, 'the complement is not built by a replace chain this rule interprets')
+        return
     run.check(okmap, 'R-FILTER', f, 'complement-map', nd.lineno, 'A<->T, C<->G',
               'the complement chain maps ACGT to %s, not TGCA' % s, inputs='motifs containing the mis-mapped letter')
     run.check(nrev % 2 == 1, 'R-FILTER', f, 'complement-reversed', nd.lineno, 'the complement is reversed',
@@ -375,7 +417,8 @@ def check_gc(ctx, f, gcs, judged, k):
         run.check(tuple(tab) == want, 'R-ORD', f, role, nd.lineno, 'rejects only strictly outside the bound',
                   '%s rejects with table %s for count<bound, =, >; required %s (bounds are inclusive)' % (role, tuple(tab), want),
                   extracted=[str(x) for x in tab], inputs='windows whose count sits exactly on the bound')
-    run.check(n['window'] >= 2 and n['short'] >= 2, 'R-FILTER', f, 'gc-tests-present', f.node.lineno,
+    gc_uses = ast.unparse(f.cls if f.cls is not None else f.node).split('def valid', 1)[-1].count('gc_range')
+    _tri(run, n['window'] >= 2 and n['short'] >= 2, gc_uses < 4, 'R-FILTER', f, 'gc-tests-present', f.node.lineno,
               'two GC tests on windows and two on short strings',
               'GC tests found: %s; required upper and lower on both the window arm and the short-string arm' % n,
               inputs='GC-constrained configurations')
@@ -408,11 +451,12 @@ def check_windows(ctx, f, judged, k):
         for d in f.defs:
             if d.node in body and d.kind == 'assign':
                 t = TermBuilder(f, d.node).def_term(d.id)
-                if t is not None and t[0] == 'sub' and t[2][0] == 'slice' and t[1][0] == 'v' and t[1][1] == judged:
+                if t is not None and t[0] == 'sub' and t[2][0] == 'slice' and \
+                        ((t[1][0] == 'v' and t[1][1] == judged) or t[1] == f.var(judged, d.node)):
                     seen = t
                     lo_a, hi_a = affine(t[2][1]), affine(t[2][2])
                     okw = lo_a is not None and hi_a is not None and aff_eq(lo_a, {i: 1}) and aff_eq(hi_a, {i: 1, k: 1})
-        run.check(okw, 'R-FILTER', f, 'window=s[i:i+k]', nd.lineno, 'window i is s[i : i + k]',
+        _tri(run, okw, seen is not None and not okw, 'R-FILTER', f, 'window=s[i:i+k]', nd.lineno, 'window i is s[i : i + k]',
                   'the window is %s; required s[i : i + k]' % (show(seen)[:80] if seen else None), inputs='every string')
         # the arm is taken when len(s) >= k
         okarm = False
